@@ -127,22 +127,24 @@ _TREE_SYMEX = {'overrides': {'fmax': _fmax, 'fmin': _fmin}, 'libm_exact': {'log2
 _TREE_STUBS = ['fmax/fmin: exact maximum/minimum of two reals (no NaN)',
                'log2/pow: exact values on the concrete integer arguments of the node-count arithmetic (log2 through the native libm value, truncated by the code)',
                'heap row built by the harness as nheap_init does, with the finite value 4*G*D+1 (above every possible distance) in place of INFINITY']
-for _tag, _n, _d, _leaf, _kk, _metric, _tiers in (
-        ('m1', 5, 1, 1, 2, 2, ('quick', 'thorough')),
-        ('m2', 4, 2, 1, 2, 2, ('quick', 'thorough')),
-        ('m3', 6, 2, 2, 3, 2, ('thorough',)),
-        ('m4', 5, 1, 2, 3, 2, ('quick', 'thorough')),
+for _tag, _n, _d, _leaf, _kk, _metric, _nq, _tiers in (
+        ('m1', 5, 1, 1, 2, 2, 1, ('quick', 'thorough')),
+        ('m2', 4, 2, 1, 2, 2, 1, ('quick', 'thorough')),
+        ('m3', 6, 2, 2, 3, 2, 1, ('thorough',)),
+        ('m4', 5, 1, 2, 3, 2, 1, ('quick', 'thorough')),
+        ('q2', 4, 1, 1, 2, 2, 2, ('quick', 'thorough')),   # two targets: heap rows 0 and 1 (row index vs neighbour index)
+        ('q3', 5, 2, 2, 2, 2, 2, ('thorough',)),
         # Euclidean variant ('e1', 3..4 points, 1-D, metric 1): the exact sqrt (r >= 0, r*r == x) makes z3 give up
         # (unknown after 120 s even for 3 points); not registered
         ):
     K('C06.c.' + _tag, property='C06', engine='symex', harness='C06/tree.cpp', entry='k_tree_query',
       tus=['src/Tree/ball_algorithm.cpp', 'src/Tree/neighbors_heap.cpp'],
-      defines={'all': {'VF_N': _n, 'VF_D': _d, 'VF_LEAF': _leaf, 'VF_K': _kk, 'VF_METRIC': _metric, 'VF_G': 8}},
+      defines={'all': {'VF_N': _n, 'VF_D': _d, 'VF_LEAF': _leaf, 'VF_K': _kk, 'VF_METRIC': _metric, 'VF_G': 8, 'VF_NQ': _nq}},
       tiers=_tiers, symex=_TREE_SYMEX,
-      bounds={'quick': '%d points and one target with integer coordinates |v| <= 8 in %d-D (ties and duplicates included), leaf_size %d, k = %d, %s metric' % (
-          _n, _d, _leaf, _kk, 'Manhattan (manhattan_distance)' if _metric == 2 else 'Euclidean (harness function through the dist_function argument)')},
+      bounds={'quick': '%d points and %d target(s) with integer coordinates |v| <= 8 in %d-D (ties and duplicates included), leaf_size %d, k = %d, %s metric' % (
+          _n, _nq, _d, _leaf, _kk, 'Manhattan (manhattan_distance)' if _metric == 2 else 'Euclidean (harness function through the dist_function argument)')},
       timeout_ms={'quick': 120000, 'thorough': 900000}, validate={'quick': 30, 'thorough': 60}, validate_doubles='int',
-      what='btree_init (+ init_node, recursive_build, find_node_split_dim, partition_node_indices), min_dist, query_depth_first, nheap_push, nheap_largest: after the query the heap holds k distinct samples with their true distances and no other sample is closer (== the k smallest distances of the exhaustive search with the same metric)',
+      what='btree_init (+ init_node, recursive_build, find_node_split_dim, partition_node_indices), nheap_load, min_dist, query_depth_first, nheap_push, nheap_largest: after the queries every heap row holds k distinct samples with their true distances and no other sample is closer (== the k smallest distances of the exhaustive search with the same metric)',
       out='the library euclidean_distance (SpacePoint/ASpace machinery); INFINITY as the initial heap content; n > bound; rounding of centroid/radius arithmetic (real-arithmetic reading)',
       assumptions=['real-arithmetic reading of centroid, radius and distance computations', 'k <= number of points'],
       stubs=_TREE_STUBS + (['euclidean metric: harness function sqrt(sum (x1-x2)^2) passed as dist_function'] if _metric == 1 else []))
